@@ -566,6 +566,17 @@ def flow_b(ctx, extra_units):
         jobs.append(("test/" + os.path.basename(c), None, c, arch))
     for n, (name, src) in enumerate(extra_units):
         jobs.append((name, src, None, TARGET))
+    # cproc's own sources after the host cpp (system headers: extern/inline/asm-label declarations of real code)
+    own = sorted(glob.glob(os.path.join(vlib.REPO, "*.c")))
+    if ctx.quick:
+        own = [c for c in own if os.path.basename(c) in ("decl.c", "qbe.c", "scope.c", "util.c")]
+    nown = 0
+    for c in own:
+        p = subprocess.run(["cpp", "-P", "-U__GNUC__", "-U__GNUC_MINOR__", "-D__STDC_NO_ATOMICS__", "-D__STDC_NO_COMPLEX__",
+                            "-U__SIZEOF_INT128__", "-U__PIC__", "-D__extension__=", c], stdout=subprocess.PIPE, stderr=subprocess.PIPE, text=True)
+        if p.returncode == 0:
+            jobs.append(("own/" + os.path.basename(c), p.stdout, None, TARGET))
+            nown += 1
 
     def one(j):
         idx, (name, src, path, arch) = j
@@ -573,7 +584,7 @@ def flow_b(ctx, extra_units):
     res = vlib.pmap(one, list(enumerate(jobs)), workers=16)
     batches = [(name, evs) for name, evs in res if evs is not None]
     nev, ndecl = validate_traces(ctx, batches, "b")
-    ctx.cov["flow_b"] = {"executions": len(batches), "events": nev, "declcommon_decisions": ndecl}
+    ctx.cov["flow_b"] = {"executions": len(batches), "events": nev, "declcommon_decisions": ndecl, "own_sources": nown}
 
 
 EXPECTED_RULES = {"6.7.1p3-block-thread-local", "6.7.1p7-block-function-storage-class", "6.7.9p5-block-linkage-initializer",
@@ -617,9 +628,10 @@ def stream(ctx, objdir, cfg, label, stats, simulate=None, depth=None, audit_ever
             if err:
                 continue
             try:
-                flow_a(ctx, objdir, chunk, label)
+                # audit first: a wrong specification must surface as SPEC-AUDIT (exit 2), never as a VIOLATION
                 aud = chunk if audit_every == 1 else chunk[::audit_every]
                 audit(ctx, aud, label + str(stats["chunks"]))
+                flow_a(ctx, objdir, chunk, label)
                 stats["chunks"] += 1
                 for c in chunk:
                     parts = [c] + ([c["all"]] if "all" in c else [])
